@@ -70,7 +70,7 @@ class C16:
                    'objects returned by to_transposed are modelled by the same call on a fresh equal object (reference path)',
                    'seeded search samples histories; only the 539-spelling grid is covered exhaustively']
     PROBES = ['export_repeated', 'reimport', 'bad_call_then_valid', 'interrupt_delivered', 'direct_construct_export', 'triple_alteration',
-              'octave_extreme', 'edited_through_setters']
+              'octave_extreme', 'edited_through_setters', 'reentrant_callback_delivered', 'cold_first_export_interrupted']
 
     # ---------------------------------------------------------------- plan
     def gen_plan(self, seed: int, index: int, tier: str) -> dict:
@@ -80,6 +80,10 @@ class C16:
         hist = index // len(GRID)
         faulty = (hist % 2 == 1)
         ops = [{'op': 'imp', 's': spell(*primary)}]
+        if index % self.TIERS[tier]['chunk'] == 0:
+            # the first run of a chunk executes in a process image that has never exported a pitch: interrupt the very first
+            # export at an absolute line event (no dry run - that would be the first export), then carry on as usual
+            ops.append({'op': 'int_exp', 'o': 0, 'k_abs': 1 + st['faults'].randrange(400), 'payload': st['faults'].choice(['SimInterrupt', 'MemoryError'])})
         n_mid = rng.randint(1, 10)
 
         def rand_ops(n):
@@ -111,6 +115,11 @@ class C16:
                     out.append({'op': 'set', 'o': rng.choice([0, rng.randrange(64)]), 'what': what, 'name': model_name(l, a), 'oct': o})
                     if rng.random() < 0.6:
                         out.append({'op': 'exp', 'o': out[-1]['o']})
+                if faulty and frng.random() < 0.12:
+                    # re-entrancy: while one factory-made codec object is inside a call, a callback (signal handler, finalizer)
+                    # uses ANOTHER factory-made codec object for another pitch
+                    out.append({'op': 'reenter', 'what': frng.choice(['imp', 'imp', 'exp']), 's': spell(*frng.choice(GRID)), 'inner': spell(*frng.choice(GRID)),
+                                'k_u': frng.randrange(1 << 30)})
                 if faulty and frng.random() < 0.3:
                     fk = seeds.weighted(frng, [('bad_imp', 4), ('bad_new', 2), ('int_exp', 4), ('bad_set', 3)])
                     if fk == 'bad_set':
@@ -215,6 +224,47 @@ class C16:
           try:
               kind = op['op']
               touched = None
+              if kind == 'reenter':
+                  from kernpy.core.pitch_models import PitchImporterFactory, PitchExporterFactory
+                  inj = intr.injector(kernpy_src())
+                  inner_res = {}
+                  if op['what'] == 'imp':
+                      mine, other, dry = PitchImporterFactory.create('kern'), PitchImporterFactory.create('kern'), PitchImporterFactory.create('kern')
+                      total = inj.count_events(lambda: dry.import_pitch(op['s']))
+                      if total <= 0:
+                          continue
+
+                      def cb():
+                          inner_res['v'] = self._call(lambda: state(other.import_pitch(op['inner'])))
+                      delivered, out = inj.run_with_callback(lambda: mine.import_pitch(op['s']), 1 + op['k_u'] % total, cb)
+                      got = state(out[1]) if out[0] == 'ok' else 'raised ' + type(out[1]).__name__
+                      want, want_inner = list(self._model_of_spelling(op['s'])), list(self._model_of_spelling(op['inner']))
+                  else:
+                      mine, other, dry = PitchExporterFactory.create('kern'), PitchExporterFactory.create('kern'), PitchExporterFactory.create('kern')
+                      ma, mb = self._model_of_spelling(op['s']), self._model_of_spelling(op['inner'])
+                      try:
+                          pa, pb, pd = kp.AgnosticPitch(*ma), kp.AgnosticPitch(*mb), kp.AgnosticPitch(*ma)
+                      except Exception:
+                          continue
+                      total = inj.count_events(lambda: dry.export_pitch(pd))
+                      if total <= 0:
+                          continue
+
+                      def cb():
+                          inner_res['v'] = self._call(lambda: other.export_pitch(pb))
+                      delivered, out = inj.run_with_callback(lambda: mine.export_pitch(pa), 1 + op['k_u'] % total, cb)
+                      got = out[1] if out[0] == 'ok' else 'raised ' + type(out[1]).__name__
+                      want, want_inner = op['s'], op['inner']
+                  seq = log.emit('fault', 'reenter:' + op['what'], [op['s'], op['inner']], [got, inner_res.get('v')])
+                  bump(faults, 'reentrant_callback')
+                  if delivered:
+                      bump(probes, 'reentrant_callback_delivered')
+                      if got != want:
+                          add_v('reentrancy', 'reentrancy/outer-' + op['what'], seq, want, got, outer=op['s'], inner=op['inner'])
+                      if inner_res.get('v') != want_inner:
+                          add_v('reentrancy', 'reentrancy/inner-' + op['what'], seq, want_inner, inner_res.get('v'), outer=op['s'], inner=op['inner'])
+                  check_pool(log.seq, 'reenter', None)
+                  continue
               if kind in ('exp', 'exp_am', 'read', 'tr', 'reimp', 'int_exp', 'set', 'bad_set'):
                   if not pool:
                       continue
@@ -275,12 +325,16 @@ class C16:
                   exported_at[touched] = n
               elif kind == 'int_exp':
                   o = pool[touched]
-                  replica = replica_of(touched)
                   inj = intr.injector(kernpy_src())
-                  total = inj.count_events(lambda: exporter.export_pitch(replica))
-                  if total <= 0:
-                      continue
-                  k = 1 + op['k_u'] % total
+                  if 'k_abs' in op:
+                      k = op['k_abs']              # cold start: no dry run (it would be the process's first export)
+                      bump(probes, 'cold_first_export_interrupted')
+                  else:
+                      replica = replica_of(touched)
+                      total = inj.count_events(lambda: exporter.export_pitch(replica))
+                      if total <= 0:
+                          continue
+                      k = 1 + op['k_u'] % total
                   delivered, out = inj.run(lambda: exporter.export_pitch(o), k, op['payload'])
                   seq = log.emit('fault', 'int_exp', [touched, k, op['payload']], [delivered, out[0]])
                   bump(faults, 'interrupt_' + op['payload'])
@@ -408,7 +462,7 @@ class C16:
         nontrivial = probes.get('export_repeated', 0) > 0
         return {'digest': log.digest(), 'events': log.seq, 'faults': faults, 'probes': probes,
                 'shape': digest_of([plan.get('primary'), kinds]), 'nontrivial': nontrivial, 'config': plan['config'],
-                'hash_sensitive': any(o['op'] == 'int_exp' for o in plan['ops']),
+                'hash_sensitive': any(o['op'] in ('int_exp', 'reenter') for o in plan['ops']),
                 'violations': viol, 'extra': {'primary': GRID.index(tuple(plan['primary'])) if tuple(plan['primary']) in GRID else -1}}
 
     @staticmethod
